@@ -635,7 +635,7 @@ func ruleC03R6(c *Ctx) {
 	}
 	c.check(cnt == 1 && len(naturalLoops(st)) == 0, "C03.R6", st, "Start launches exactly one goroutine", st.Pos(), "one go statement, no loop", "bufferer.Start launches more than one goroutine")
 	// one consumer registered per bufferer on each path of the per-output setup
-	starter := c.P.Fn(aPrepPipe).AnonFuncs[0]
+	starter := returnedClosure(c.P.Fn(aPrepPipe))
 	for _, f := range starter.AnonFuncs {
 		if len(sitesWhere(f, func(s ssa.CallInstruction) bool { return invokeOf(s, "base/bconfig.ChunkBufferConfig", "NewBufferer") })) == 0 {
 			continue
